@@ -406,6 +406,26 @@ Definition extract_p (priv : bool) (pre : path) (umask : N) (preserve : bool) (e
   | Err x => Err x
   end.
 
+(* what is on disk when the extraction stops: a failing entry has no effect of its own (the
+   checks come first, MkdirAll fails before it creates anything, os.Remove of a non-empty
+   directory removes nothing), the entries before it are there, and restoreDirModes has not
+   run: directories keep their creation mode *)
+Fixpoint extract_list_partial (priv : bool) (pre : path) (umask : N) (preserve : bool) (f : fs) (es : list entry) : fs * option xerr :=
+  match es with
+  | [] => (f, None)
+  | e :: es' =>
+      match extract_entry_p priv pre umask preserve f e with
+      | Ok f' => extract_list_partial priv pre umask preserve f' es'
+      | Err x => (f, Some x)
+      end
+  end.
+
+Definition extract_partial (priv : bool) (pre : path) (umask : N) (preserve : bool) (es : list entry) : fs * option xerr :=
+  match extract_list_partial priv pre umask preserve (fs_init umask) es with
+  | (f, None) => (finish_dirs pre preserve es f, None)
+  | (f, Some x) => (f, Some x)
+  end.
+
 (* the same check on the code before restoreDirModes (directories created with their recorded mode) *)
 Fixpoint extract_list_prefix_p (priv : bool) (pre : path) (umask : N) (preserve : bool) (f : fs) (es : list entry) : res fs :=
   match es with
@@ -600,6 +620,20 @@ Section Codec.
                      | None => Ok f
                      end
                  end
+             end
+         end.
+
+  (* what Push leaves in the target directory, whether it succeeds or not: pushDir creates the
+     directory first; a blob that fails its own verification is not extracted; a wrong tar
+     digest is noticed only after the whole archive has been extracted *)
+  Definition unpack_residue (umask : N) (preserve : bool) (d : descriptor) (blob : str) : fs :=
+    if negb (digest_eqb (H blob) (d_digest d) && (N.of_nat (length blob) =? d_size d)) then fs_init umask
+    else match gunz blob with
+         | None => fs_init umask
+         | Some tarb =>
+             match dec tarb with
+             | None => fs_init umask
+             | Some es => fst (extract_partial true (d_title d) umask preserve es)
              end
          end.
 
